@@ -212,8 +212,10 @@ fn unit(r: &mut Rng) -> F3 {
     }
 }
 /// an orthonormal frame (u, v, n): axis aligned (any permutation and signs) one time in three, else random
+/// (f32 build: four times in five -- finding F15: the crate's absolute 1e-7 coplanarity / collinearity tolerances are below the
+/// binary32 rounding noise of an oblique metre-scale configuration, which would push nearly every case onto the "not coplanar" paths)
 fn frame(r: &mut Rng) -> (F3, F3, F3) {
-    if r.chance(0.34) {
+    if r.chance(if cfg!(feature = "float") { 0.8 } else { 0.34 }) {
         let e = [[1.0, 0.0, 0.0], [0.0, 1.0, 0.0], [0.0, 0.0, 1.0]];
         let k = r.below(3) as usize;
         let sg = |r: &mut Rng| if r.chance(0.5) { 1.0 } else { -1.0 };
@@ -233,25 +235,31 @@ fn frame(r: &mut Rng) -> (F3, F3, F3) {
 fn origin(r: &mut Rng) -> F3 {
     match r.below(4) {
         0 => [0.0, 0.0, 0.0],
-        1 => [r.range(-1000.0, 1000.0), r.range(-1000.0, 1000.0), r.range(-100.0, 100.0)],
+        1 => [r.range(-1000.0, 1000.0) * OSC, r.range(-1000.0, 1000.0) * OSC, r.range(-100.0, 100.0) * OSC],
         _ => [r.range(-10.0, 10.0), r.range(-10.0, 10.0), r.range(-10.0, 10.0)],
     }
 }
+/// far origins: +-1000 in the f64 build, +-10 in the f32 build (coordinate noise near 1e-6 there)
+const OSC: f64 = if cfg!(feature = "float") { 0.01 } else { 1.0 };
+/// the working precision's EPSILON and unit roundoff as f64 (f64 build: f64::EPSILON, 2^-53 = 1.1102230246251565e-16)
+const FEPS: f64 = Float::EPSILON as f64;
+const HALF_ULP: f64 = FEPS / 2.0;
 fn len(r: &mut Rng) -> f64 {
     match r.below(8) { 0 => r.range(0.01, 0.1), 1 => r.range(10.0, 50.0), _ => r.range(0.1, 10.0) }
 }
 /// 1e-16-level noise: a few ulps of a metre-scale coordinate
 fn noise(r: &mut Rng) -> f64 {
-    match r.below(4) { 0 => 0.0, _ => (r.below(41) as f64 - 20.0) * 1.1102230246251565e-16 * *r.pick(&[0.5, 1.0, 2.0, 8.0, 64.0]) }
+    match r.below(4) { 0 => 0.0, _ => (r.below(41) as f64 - 20.0) * HALF_ULP * *r.pick(&[0.5, 1.0, 2.0, 8.0, 64.0]) }
 }
 fn noisy(r: &mut Rng, p: F3) -> F3 { [p[0] + noise(r), p[1] + noise(r), p[2] + noise(r)] }
+/// k steps to the neighbouring number of the working precision (the value is rounded to `Float` first: identity in the f64 build)
 fn nudge(x: f64, k: i64) -> f64 {
-    let mut y = x;
+    let mut y = x as Float;
     for _ in 0..k.abs() {
-        y = if y == 0.0 { if k > 0 { f64::from_bits(1) } else { -f64::from_bits(1) } }
-            else if (k > 0) == (y > 0.0) { f64::from_bits(y.to_bits() + 1) } else { f64::from_bits(y.to_bits() - 1) };
+        y = if y == 0.0 { if k > 0 { Float::from_bits(1) } else { -Float::from_bits(1) } }
+            else if (k > 0) == (y > 0.0) { Float::from_bits(y.to_bits() + 1) } else { Float::from_bits(y.to_bits() - 1) };
     }
-    y
+    y as f64
 }
 fn grid(r: &mut Rng) -> F3 {
     [(r.below(65) as f64 - 32.0) / 4.0, (r.below(65) as f64 - 32.0) / 4.0, (r.below(65) as f64 - 32.0) / 4.0]
@@ -408,7 +416,7 @@ fn seg_inputs(r: &mut Rng) -> (&'static str, Vec<Float>) {
 /// decision-boundary triangles: the unit right triangle in a coordinate plane and a query point whose computed
 /// barycentric coordinates are EXACTLY +-100 eps (or a neighbour): alpha = x, beta = y, w = 1 - x - y
 fn boundary_tri(r: &mut Rng) -> Vec<Float> {
-    let tiny = 100.0 * f64::EPSILON;
+    let tiny = 100.0 * FEPS;
     let b = |r: &mut Rng| nudge(*r.pick(&[tiny, -tiny]), r.below(5) as i64 - 2);
     let (x, y) = match r.below(6) {
         0 => (b(r), 0.25), 1 => (0.25, b(r)), 2 => (0.5, 0.5 - b(r)), 3 => (b(r), b(r)),
@@ -440,8 +448,8 @@ fn tri_inputs(r: &mut Rng) -> (&'static str, Vec<Float>) {
     }
     // the query point: barycentric coordinates (al, be) of its projection, then lifted by h off the plane
     let e1 = sub(b, a); let e2 = sub(c, a);
-    let tiny = 100.0 * f64::EPSILON;
-    let band = |r: &mut Rng| -> f64 { (if r.chance(0.5) { tiny } else { -tiny }) + (r.below(21) as f64 - 10.0) * 1e-16 };
+    let tiny = 100.0 * FEPS;
+    let band = |r: &mut Rng| -> f64 { (if r.chance(0.5) { tiny } else { -tiny }) + (r.below(21) as f64 - 10.0) * 1e-16 * FSCALE };
     let (al, be, what): (f64, f64, &'static str) = match r.below(16) {
         0 => (0.0, 0.0, "vertex"), 1 => (1.0, 0.0, "vertex"), 2 => (0.0, 1.0, "vertex"),
         3 => (r.range(0.01, 0.99), 0.0, "edge"),
@@ -479,11 +487,11 @@ fn tri_inputs(r: &mut Rng) -> (&'static str, Vec<Float>) {
 }
 
 fn vec_inputs(r: &mut Rng, op: usize) -> Vec<Float> {
-    let tiny = 100.0 * f64::EPSILON;
+    let tiny = 100.0 * FEPS;
     let comp = |r: &mut Rng| -> f64 {
         match r.below(12) {
             0 => 0.0, 1 => *r.pick(&[1.0, -1.0, 0.5, 2.0, -0.0]),
-            2 => nudge(*r.pick(&[tiny, -tiny, f64::EPSILON, -f64::EPSILON, 1e-5, -1e-5]), r.below(7) as i64 - 3),
+            2 => nudge(*r.pick(&[tiny, -tiny, FEPS, -FEPS, 1e-5, -1e-5]), r.below(7) as i64 - 3),
             3 => r.logmag(-17.0, -12.0), 4 => r.logmag(-8.0, -3.0), 5 => r.logmag(0.0, 3.0),
             _ => r.range(-10.0, 10.0),
         }
@@ -533,7 +541,11 @@ fn area_inputs(r: &mut Rng, op: usize) -> Vec<Float> {
     let phi = |r: &mut Rng| -> f64 {
         match r.below(10) {
             0 => 360.0, 1 => 0.0, 2 => *r.pick(&[90.0, 180.0, 270.0, 45.0]),
+            #[cfg(not(feature = "float"))]
             3 => *r.pick(&[360.0 + 1e-13, -1e-17, -1e-13, 361.0, -1.0, 360.00000000000006, -2.220446049250313e-16, -2.3e-16]),
+            // (f32 build: the same ladder in binary32 terms: 360 + 1 ulp32, 360 + 2 ulp32, -EPSILON)
+            #[cfg(feature = "float")]
+            3 => *r.pick(&[360.00003, -1e-9, -1e-6, 361.0, -1.0, 360.00006, -1.1920929e-7, -1.3e-7]),
             _ => r.range(0.0, 360.0),
         }
     };
@@ -595,11 +607,12 @@ pub fn run(seed: u64, n: usize, out: &str) {
     // Rng::new(s) and Rng::new(s + k) are the same SplitMix64 stream shifted by k draws: re-seed from one mixed output
     // so that different VERIF_SEEDs give unrelated case sets
     let mut r = Rng::new(Rng::new(seed ^ 0xC19).next());
-    let mut sink = Sink::new(out, "C19", 250);
+    // f32 build: runner module C19f32 of Run/C19.v (the same text on the binary32 instance)
+    let mut sink = Sink::new32(out, "C19", 250);
     let push_seg = |sink: &mut Sink, label: &str, i: Vec<Float>| {
         let o = seg_apply(&i);
         sink.push(format!("(1%N, 0%N, {}, {})", sfs(&i), sfs(&o)),
-                  format!("{{\"kind\":\"seg\",\"cls\":\"{}\",\"in\":{},\"out\":{}}}", label, jfs(&i), jfs(&o)));
+                  format!("{{{}\"kind\":\"seg\",\"cls\":\"{}\",\"in\":{},\"out\":{}}}", f32_mark(), label, jfs(&i), jfs(&o)));
     };
     for (label, i) in corpus_seg() { if sink.len() < n { push_seg(&mut sink, label, i); } }
     let mut k = 0usize;
@@ -611,21 +624,21 @@ pub fn run(seed: u64, n: usize, out: &str) {
                 let (label, i) = tri_inputs(&mut r);
                 let o = tri_apply(&i);
                 sink.push(format!("(2%N, 0%N, {}, {})", sfs(&i), sfs(&o)),
-                          format!("{{\"kind\":\"tri\",\"cls\":\"{}\",\"in\":{},\"out\":{}}}", label, jfs(&i), jfs(&o)));
+                          format!("{{{}\"kind\":\"tri\",\"cls\":\"{}\",\"in\":{},\"out\":{}}}", f32_mark(), label, jfs(&i), jfs(&o)));
             }
             7 | 8 => {
                 let op = r.below(N_VEC_OPS as u64) as usize;
                 let i = vec_inputs(&mut r, op);
                 let o = vec_apply(op, &i);
                 sink.push(format!("(0%N, {}%N, {}, {})", op, sfs(&i), sfs(&o)),
-                          format!("{{\"kind\":\"vec\",\"op\":{},\"in\":{},\"out\":{}}}", op, jfs(&i), jfs(&o)));
+                          format!("{{{}\"kind\":\"vec\",\"op\":{},\"in\":{},\"out\":{}}}", f32_mark(), op, jfs(&i), jfs(&o)));
             }
             _ => {
                 let op = r.below(N_AREA_OPS as u64) as usize;
                 let i = area_inputs(&mut r, op);
                 let o = area_apply(op, &i);
                 sink.push(format!("(3%N, {}%N, {}, {})", op, sfs(&i), sfs(&o)),
-                          format!("{{\"kind\":\"area\",\"op\":{},\"in\":{},\"out\":{}}}", op, jfs(&i), jfs(&o)));
+                          format!("{{{}\"kind\":\"area\",\"op\":{},\"in\":{},\"out\":{}}}", f32_mark(), op, jfs(&i), jfs(&o)));
             }
         }
     }
@@ -639,8 +652,8 @@ pub fn replay(args: &[String]) {
     let i: Vec<Float> = args[2..].iter().map(|s| Float::from_bits(s.parse().unwrap())).collect();
     let o = match kind { "vec" => vec_apply(op, &i), "seg" => seg_apply(&i), "tri" => tri_apply(&i), _ => area_apply(op, &i) };
     if kind == "vec" || kind == "area" {
-        println!("{{\"kind\":\"{}\",\"op\":{},\"in\":{},\"out\":{}}}", kind, op, jfs(&i), jfs(&o));
+        println!("{{{}\"kind\":\"{}\",\"op\":{},\"in\":{},\"out\":{}}}", f32_mark(), kind, op, jfs(&i), jfs(&o));
     } else {
-        println!("{{\"kind\":\"{}\",\"cls\":\"replay\",\"in\":{},\"out\":{}}}", kind, jfs(&i), jfs(&o));
+        println!("{{{}\"kind\":\"{}\",\"cls\":\"replay\",\"in\":{},\"out\":{}}}", f32_mark(), kind, jfs(&i), jfs(&o));
     }
 }
